@@ -18,7 +18,7 @@ func init() {
 		ID: "C15",
 		Rule: "case = one base geometry of one of the eight types (5% of the multi-part bases have 60..140 members, 12% store one member two or three times as exact copies; members in distinct cells, distinct vertices >= 200 tol apart, every ring closed; in 30% of the cases rings have two vertices tied for the smallest X - an axis-parallel left edge) and ~40 derived partners with a truth value known by construction: positives = every coordinate perturbed by < 0.9 tol, combined with member/ring/item permutations and ring-start rotations; negatives = other type (all 56 ordered type pairs), member inserted/deleted (also empty members), a ring moved from one polygon of a multi-polygon to a sibling, vertex inserted/deleted, line string reversed, one vertex displaced by 1.5-100 tol; every pair is evaluated in both directions (symmetry), plus unrelated random pairs; " +
 			"an evaluation is one ordered Similar call judged; non-trivial = derived pair (distinct by hash of both geometries)",
-		Assumptions: []string{"distinct members separated by >> tol so that matching is unambiguous (as the property states)", "rings are closed"},
+		Assumptions: []string{"distinct members separated by >> tol so that matching is unambiguous (as the property states)", "rotation of the start vertex is claimed for closed rings only (as the property says); unclosed rings are compared as spelled"},
 		Phases: []core.Phase{{Name: "pairs", NumCases: func(t string) int {
 			if t == "thorough" {
 				return 300000
@@ -28,7 +28,7 @@ func init() {
 		Run: run,
 		Floors: func(t string) map[string]int64 {
 			m := map[string]int64{"pos.perturbed": 5000, "pos.permuted": 2000, "pos.ring_rotated": 1000, "neg.type": 5000, "neg.member_inserted": 1000, "neg.member_deleted": 1000, "neg.vertex_inserted": 1000,
-				"neg.vertex_deleted": 1000, "neg.reversed": 300, "neg.displaced": 2000, "unrelated": 1000, "base.many_members_60_to_140": 100, "base.with_duplicate_member": 300, "neg.ring_moved_to_sibling_polygon": 300, "base.coordinate_spacing_comparable_to_tol": 300, "base.ring_with_tied_leftmost_vertices": 500}
+				"neg.vertex_deleted": 1000, "neg.reversed": 300, "neg.displaced": 2000, "unrelated": 1000, "base.many_members_60_to_140": 100, "base.with_duplicate_member": 300, "neg.ring_moved_to_sibling_polygon": 300, "base.coordinate_spacing_comparable_to_tol": 300, "base.ring_with_tied_leftmost_vertices": 500, "base.with_unclosed_ring": 500, "neg.closing_vertex_displaced": 500}
 			for _, n := range typeNames {
 				m["base."+n] = 100
 			}
@@ -44,6 +44,7 @@ type builder struct {
 	tol  float64
 	cell int // next free cell
 	many bool // top-level multi-geometries get 60..140 members (sizes on both sides of 64 and 128)
+	unclosed, sawUnclosed bool // half of the rings are spelled without the repeated first vertex
 	tiedAnchor, sawTie bool // rings may have several vertices with the smallest X (axis-parallel left edges)
 	off  float64 // added to every coordinate: 1e15 .. 9e15 tol puts the float64 spacing at 0.1 .. 1 tol
 }
@@ -137,6 +138,10 @@ func (b *builder) ring() geom.Path {
 			if cnt > 1 {
 				b.sawTie = true
 			}
+			if b.unclosed && b.r.Chance(0.5) {
+				b.sawUnclosed = true
+				return geom.Path(p) // the spelling without the repeated first vertex
+			}
 			return append(geom.Path(p), p[0])
 		}
 		b.cell = save
@@ -212,7 +217,10 @@ func mapPts(g geom.Geom, f func(p []geom.Point, ring bool) []geom.Point) geom.Ge
 	case geom.Polygon:
 		o := make(geom.Polygon, len(t))
 		for i := range t {
-			o[i] = f(append([]geom.Point{}, t[i]...), true)
+			// "ring" tells the editing functions that the last vertex repeats the first and has
+			// to follow it; an unclosed ring is edited like any other path
+			closed := len(t[i]) > 1 && t[i][0] == t[i][len(t[i])-1]
+			o[i] = f(append([]geom.Point{}, t[i]...), closed)
 		}
 		return o
 	case geom.MultiPolygon:
@@ -371,6 +379,30 @@ func (b *builder) negatives(g geom.Geom) []neg {
 			return p
 		})})
 	}
+	// the closing vertex of a closed ring displaced on its own (the ring is then no longer closed;
+	// a comparison that skips "the last point, which repeats the first" does not see it)
+	{
+		var closedPaths []int
+		k := 0
+		mapPts(g, func(p []geom.Point, ring bool) []geom.Point {
+			if ring && len(p) > 3 {
+				closedPaths = append(closedPaths, k)
+			}
+			k++
+			return p
+		})
+		if len(closedPaths) > 0 {
+			out = append(out, neg{noPerturb: true, label: "closing_vertex_displaced", h: editPath(g, closedPaths[r.Intn(len(closedPaths))], func(p []geom.Point, ring bool) []geom.Point {
+				d := r.Range(3, 50) * b.tol * float64(1-2*r.Intn(2))
+				if r.Bool() {
+					p[len(p)-1].X = shift(p[len(p)-1].X, d, b.tol)
+				} else {
+					p[len(p)-1].Y = shift(p[len(p)-1].Y, d, b.tol)
+				}
+				return p
+			})})
+		}
+	}
 	// a ring moved from one member polygon to a sibling (same number of polygons, same rings
 	// overall, but the members' ring counts differ)
 	moveRing := func(mp geom.MultiPolygon) (geom.MultiPolygon, bool) {
@@ -523,6 +555,7 @@ func run(c *core.Ctx, idx int) {
 	b := &builder{r: r, tol: tol}
 	kind := r.Intn(8)
 	b.tiedAnchor = r.Chance(0.3)
+	b.unclosed = r.Chance(0.3)
 	if r.Chance(0.1) {
 		// far from the origin relative to the tolerance: the float64 spacing of the coordinates is
 		// 0.1 .. 1 tol (a tolerance of a nanometre at UTM coordinates); perturbations and
@@ -546,6 +579,9 @@ func run(c *core.Ctx, idx int) {
 	}
 	if b.sawTie {
 		c.Count("base.ring_with_tied_leftmost_vertices")
+	}
+	if b.sawUnclosed {
+		c.Count("base.with_unclosed_ring")
 	}
 	c.Count("base." + tname(g))
 	if c.WantSample() && kind >= 3 {
